@@ -447,8 +447,15 @@ def run_case(case):
                                 detail=f'op {k}: values {op["values"]} appended concurrently to list {op["addr"]} from '
                                        f'{[w for w, _ in op["par"]]}, list now ends with {tail}'))
                 break
-            for v in tail:
-                o2 = dict(who='0', h=f'o{op["addr"]}', addr=op['addr'], m='append', py=['append', [v]], margs=[v])
+            # which connection (client process, thread) issued which value
+            conn_of = {}
+            for w, cmd in op['par']:
+                for t, cl in enumerate(cmd[1]):
+                    conn_of[cl[3][0]] = 10 * (int(w) + 1) + t
+            for n_, v in enumerate(tail):
+                o2 = dict(who='0', h=f'o{op["addr"]}', addr=op['addr'], m='append', py=['append', [v]], margs=[v],
+                          par=dict(conn=conn_of[v], first=n_ == 0, last=n_ == len(tail) - 1,
+                                   issue=[[conn_of[x], x] for x in op['values']]))
                 world.run(o2)
                 lin.append((o2, ('ret', None)))
             k += 1
@@ -554,6 +561,15 @@ def model_lines(cid, case, res):
                 order = o[1]['$dict']
                 body = ','.join(f'{ATTRS.index(k)}={enc.tok(v)}' for k, v in order) if order else '-'
                 lines.append(f'state {op["addr"]} => N:{body}')
+            continue
+        if op.get('par'):
+            # a concurrent batch: all sends in issue order, the methods in the observed order, then the replies
+            pr = op['par']
+            if pr['first']:
+                lines += [f'psend {c} {op["addr"]} append {enc.tok(v)}' for c, v in pr['issue']]
+            lines.append(f'pexec {pr["conn"]}')
+            if pr['last']:
+                lines.append('pend => ret n')
             continue
         lines.append(f'op {op["who"]} {op["addr"]} {_mop(enc, op)} => {_mout(enc, op, o)}')
         if op.get('final') and o[0] == 'ret':
